@@ -203,9 +203,8 @@ Fixpoint pdu (base : Z) (s : list Z) (acc : Z) (prev : bool) : option Z :=
 
 Definition with_sign (f : list Z -> option Z) (s : list Z) : option Z :=
   match s with
-  | 43 :: r => f r
-  | 45 :: r => option_map Z.opp (f r)
-  | _ => f s
+  | c :: r => if c =? 43 then f r else if c =? 45 then option_map Z.opp (f r) else f s
+  | [] => f s
   end.
 
 (* int(x) (base 10) *)
@@ -213,23 +212,25 @@ Definition py_int10 (s : list Z) : option Z := with_sign (fun r => pdu 10 r 0 fa
 
 Definition prefixed (base : Z) (r : list Z) : option Z :=
   match r with
-  | 95 :: r' => pdu base r' 0 false
-  | _ => pdu base r 0 false
+  | c :: r' => if c =? 95 then pdu base r' 0 false else pdu base r 0 false
+  | [] => pdu base r 0 false
   end.
 
 Definition dec0 (s : list Z) : option Z :=
   match pdu 10 s 0 false with
   | Some v => match s with
-              | 48 :: _ => if v =? 0 then Some 0 else None   (* no leading zeros in base 0 *)
-              | _ => Some v
+              | c :: _ => if c =? 48 then (if v =? 0 then Some 0 else None)   (* no leading zeros in base 0 *)
+                          else Some v
+              | [] => Some v
               end
   | None => None
   end.
 
 Definition py_int0_unsigned (s : list Z) : option Z :=
   match s with
-  | 48 :: x :: r =>
-      if (x =? 120) || (x =? 88) then prefixed 16 r
+  | z :: x :: r =>
+      if negb (z =? 48) then dec0 s
+      else if (x =? 120) || (x =? 88) then prefixed 16 r
       else if (x =? 111) || (x =? 79) then prefixed 8 r
       else if (x =? 98) || (x =? 66) then prefixed 2 r
       else dec0 s
@@ -339,9 +340,10 @@ Definition py_float_unsigned (s : list Z) : option Q :=
 
 Definition py_float (s : list Z) : option Q :=
   match strip_num s with
-  | 43 :: r => py_float_unsigned r
-  | 45 :: r => option_map Qopp (py_float_unsigned r)
-  | r => py_float_unsigned r
+  | c :: r => if c =? 43 then py_float_unsigned r
+              else if c =? 45 then option_map Qopp (py_float_unsigned r)
+              else py_float_unsigned (c :: r)
+  | [] => py_float_unsigned []
   end.
 
 (* ---- utils.parse_time ---- *)
